@@ -75,7 +75,7 @@ type c04Event struct {
 // that complete, die or hit a failing call at a drawn call boundary.
 func TestVerifC04(t *testing.T) {
 	stt := vs.NewStats(t, "C04")
-	stt.Rule = "semi-sync clusters of 2-5 HA hosts (+0-1 cascade), configured count 1-3, both adjustment orders, semi_sync_enable_lag 1000 bytes, inactivation_delay 5s, converged by the real daemons; 1-4 transitions each made of 1-3 events from {replica crash, replica start, replication broken by an SQL error, cure, operator STOP REPLICA, errant transaction on a replica (divergence), slow download + large transactions (download lag), fast download, client writes, time jump 0/6/20 s}, each followed by 1-4 iterations of every process; the manager's iteration runs clean, or the manager is killed at its k-th external call (SQL statement or ZooKeeper write, k drawn up to the number of calls a clean iteration made), or its k-th statement fails, or the master's mysqld dies at the manager's k-th call; oracle: (a),(b) evaluated on ground truth before and after every manager iteration and replayed over every single change inside it; complete+clean+master healthy and writable+no pending request => (a) and (b) hold after; any iteration without pending maintenance/switch request: held before => hold after; list content after a complete clean iteration (no cascade / marked / diverged / broken or dead beyond the delay / download-lagging member); a member is removed from the list only while the master is up; non-trivial = an iteration changed the list or a semi-sync setting"
+	stt.Rule = "semi-sync clusters of 2-5 HA hosts (+0-1 cascade), configured count 1-3, both adjustment orders, semi_sync_enable_lag 1000 bytes, inactivation_delay 5s, converged by the real daemons; 1-4 transitions each made of 1-3 events from {replica crash, replica start, replication broken by an SQL error, cure, operator STOP REPLICA, operator RESET REPLICA ALL (flag left on), errant transaction on a replica (divergence), slow download + large transactions (download lag), fast download, client writes, time jump 0/6/20 s}, each followed by 1-4 iterations of every process; the manager's iteration runs clean, or the manager is killed at its k-th external call (SQL statement or ZooKeeper write, k drawn up to the number of calls a clean iteration made), or its k-th statement fails, or the master's mysqld dies at the manager's k-th call; oracle: (a),(b) evaluated on ground truth before and after every manager iteration and replayed over every single change inside it; complete+clean+master healthy and writable+no pending request => (a) and (b) hold after; any iteration without pending maintenance/switch request: held before => hold after; list content after a complete clean iteration (no cascade / marked / diverged / broken or dead beyond the delay / download-lagging member); a member is removed from the list only while the master is up; non-trivial = an iteration changed the list or a semi-sync setting"
 	stt.Assumptions = simAssumptions
 	stt.Check(t, vs.CheckOpts{Bubble: true}, c04Prop(t))
 }
@@ -366,7 +366,12 @@ func c04Prop(t *testing.T) func(c *vs.Case) {
 					for _, x := range prev {
 						if !contains1(v.active, x) {
 							s.dumpTrace(s.traceFrom)
-							c.Violation("c04-evicted-without-master", "member %s was removed from the list (%v => %v) after the master had died at the manager's call %d\n%s\n%s", x, prev, v.active, k, desc, s.describe())
+							sig := "c04-evicted-without-master"
+							if contains1(s.markedHosts(), x) {
+								// the write is SetRecovery's (remove from the list, then mark), which has no guard
+								sig += "+by-marking-for-recovery"
+							}
+							c.Violation(sig, "member %s was removed from the list (%v => %v) after the master had died at the manager's call %d\n%s\n%s", x, prev, v.active, k, desc, s.describe())
 						}
 					}
 				}
@@ -386,7 +391,7 @@ func c04Prop(t *testing.T) func(c *vs.Case) {
 					}
 				}
 				r := reps[c.Src.Int("event.replica", 0, len(reps)-1)]
-				ev := c.Src.Pick("event", "crash", "start", "sql-error", "cure", "stop-replica", "errant", "slow-download", "fast-download", "writes", "advance", "swap")
+				ev := c.Src.Pick("event", "crash", "start", "sql-error", "cure", "stop-replica", "errant", "slow-download", "fast-download", "writes", "advance", "swap", "reset-replica-by-hand")
 				if ev == "swap" && len(reps) < 2 {
 					ev = "writes"
 				}
@@ -435,6 +440,12 @@ func c04Prop(t *testing.T) func(c *vs.Case) {
 				case "stop-replica":
 					if h.Chan != nil {
 						h.Chan.IODesired, h.Chan.SQLDesired = false, false
+					}
+				case "reset-replica-by-hand":
+					// RESET REPLICA ALL by an operator or a restore: reachable, acknowledgement flag
+					// as it was, no replica status any more
+					if h.Up {
+						h.Chan = nil
 					}
 				case "errant":
 					if h.Up {
